@@ -13,7 +13,8 @@
     31 tx result class differs, 32 logs differ, 33 native state after differs, 34 EVM-visible
     counters differ, 35 constants (addresses / event ids) differ, 36 ill-formed call tree;
     41 failed tx changed something, 42 state of a non-caller changed, 43 effect differs from the
-    passed arguments, 44 supply changed / balances do not add up to it. *)
+    passed arguments, 44 supply changed / balances do not add up to it, 45 coins burned by a slash
+    did not arrive at the fee collector. *)
 From Teleport Require Import Base.Bytes Base.Outcome Model.Adapter Model.AdapterEvm Model.AdapterNative.
 Local Open Scope Z_scope.
 
@@ -145,7 +146,7 @@ Record envinfo := {
 }.
 
 Record astep := {
-  a_kind : nat;                          (* 0 transaction, 1 environment step *)
+  a_kind : nat;                          (* 0 transaction, 1 environment step, 2 slashing (burns pool coins) *)
   a_tx : txd;
   a_vres : list (bytes * option nat);    (* oracle: validator string -> index *)
   a_pre : ostate; a_post : ostate;
@@ -329,6 +330,12 @@ Definition mon_astep (e : envinfo) (st : astep) : list nat :=
         let callers := map (fun iv => snd (fst iv)) (fr_inv r) in
         (if attribution_ok e callers (o_n (a_pre st)) (o_n (a_post st)) then [] else [42%nat]) ++
         (if exact_ok e (resolve_of (a_vres st)) (fr_inv r) (o_n (a_pre st)) (o_n (a_post st)) then [] else [43%nat])
+  | 2%nat =>
+      (* what left the staking pools is what the fee collector received *)
+      let pre := o_n (a_pre st) in let post := o_n (a_post st) in
+      let pools s := bal s (e_bonded e) + bal s (e_notbonded e) in
+      if (bal post (e_feecoll e) - bal pre (e_feecoll e) =? pools pre - pools post) && (pools post <=? pools pre)
+      then [] else [45%nat]
   | _ => []
   end.
 
